@@ -43,6 +43,12 @@ func (c *Ctx) canonTypes() []canonType {
 	}
 }
 
+// storedTypes are the dynamic types a stored field can have: the canonical types plus
+// []byte, which Normalize passes through unchanged (pinned by clover's own encoding test).
+func (c *Ctx) storedTypes() []canonType {
+	return append(c.canonTypes(), canonType{"[]byte", types.NewSlice(types.Typ[types.Uint8]), 4})
+}
+
 func constIntOf(a aval) (int64, bool) {
 	if a.K != aConst || a.C == nil || a.C.Kind() != constant.Int {
 		return 0, false
@@ -285,8 +291,8 @@ func ruleCMP3(c *Ctx) []Ob {
 		return o.list
 	}
 	pos := relPath(c, cmp.Pos())
-	for _, a := range cts {
-		for _, b := range cts {
+	for _, a := range c.storedTypes() {
+		for _, b := range c.storedTypes() {
 			key := "Compare(" + a.Name + ", " + b.Name + ")"
 			outs := te.Eval(cmp, []aval{tagOf(a.T), tagOf(b.T)}, 0)
 			bad := ""
@@ -524,6 +530,15 @@ func (c *Ctx) classifyNormalizeReturn(v ssa.Value, depth int) []string {
 				out = append(out, "passthrough:reflect.Value.Interface()")
 				continue
 			}
+			if full == "(reflect.Value).Bytes" {
+				// exactly []byte, and only defined for slices (and addressable arrays): needs a Kind() == Slice guard
+				if c.kindGuarded(x, "Slice") {
+					out = append(out, "passthrough-bytes:reflect.Value.Bytes() under Kind() == Slice")
+				} else {
+					out = append(out, "bad:[]byte from reflect.Value.Bytes() without a Kind() == Slice test (panics on an array that is not addressable)")
+				}
+				continue
+			}
 			if isCanonicalStatic(c, x.Type()) {
 				out = append(out, "canon:"+typeString(x.Type()))
 				continue
@@ -588,6 +603,30 @@ func (c *Ctx) classifyNormalizeReturn(v ssa.Value, depth int) []string {
 		}
 	}
 	return out
+}
+
+// kindGuarded reports whether instruction in runs only where some reflect.Kind was found equal to reflect.<kind>.
+func (c *Ctx) kindGuarded(in ssa.Instruction, kind string) bool {
+	kv, ok := c.reflectKind(kind)
+	if !ok {
+		return false
+	}
+	fn := in.Parent()
+	es := guardEdges(fn, func(cond ssa.Value, branch bool) bool {
+		b, ok := cond.(*ssa.BinOp)
+		if !ok {
+			return false
+		}
+		k, isC := constInt(b.Y)
+		if !isC || k != kv {
+			return false
+		}
+		if n, ok := b.X.Type().(*types.Named); !ok || n.Obj().Pkg() == nil || n.Obj().Pkg().Path() != "reflect" || n.Obj().Name() != "Kind" {
+			return false
+		}
+		return (b.Op == token.EQL && branch) || (b.Op == token.NEQ && !branch)
+	})
+	return guardedBy(fn, in.Block(), es)
 }
 
 func ruleCMP5(c *Ctx) []Ob {
@@ -718,8 +757,12 @@ func ruleCMP5(c *Ctx) []Ob {
 					if strings.TrimPrefix(cl, "canon:") != want[kn] {
 						bad = cl
 					}
+				case strings.HasPrefix(cl, "passthrough-bytes:") && kn == "Slice":
+					// []byte pass-through pinned by clover's own TestNormalize
+				case strings.HasPrefix(cl, "passthrough-bytes:") && kn == "Array":
+					// the pass-through is guarded by Kind() == Slice: not taken for arrays
 				case strings.HasPrefix(cl, "passthrough:") && (kn == "Slice" || kn == "Array"):
-					// []byte pass-through pinned by clover's own TestNormalize: information
+					bad = "the value itself (reflect.Value.Interface()): a byte array [N]uint8 or a named byte-slice type is stored as is, which is neither a generic slice nor the []byte clover's own test pins, and changes type when the document is stored and read back"
 				default:
 					bad = cl
 				}
@@ -748,7 +791,7 @@ func ruleCMP5(c *Ctx) []Ob {
 				o.add(OK, key, relPath(c, ret.Pos()), "canonical result type")
 			case strings.HasPrefix(cl, "nil-result:"):
 				o.add(VIOLATED, "Normalize/return nil result of a helper", relPath(c, ret.Pos()), "%s returns nil as a successful result: a non-nil input (an empty map, an empty slice) is normalised to nil - the stored field changes from {} to null, and code that writes into the sub-map panics on the nil map", strings.TrimPrefix(cl, "nil-result:"))
-			case strings.HasPrefix(cl, "passthrough:"):
+			case strings.HasPrefix(cl, "passthrough:") || strings.HasPrefix(cl, "passthrough-bytes:"):
 				pass++
 				o.add(INFO, key, relPath(c, ret.Pos()), "pass-through pinned by clover's own tests (BinaryMarshaler / time.Time / internal.Value / []byte)")
 			default:
@@ -1257,8 +1300,11 @@ func ruleADP2(c *Ctx) []Ob {
 func ruleCMP6(c *Ctx) []Ob {
 	o := newObs(c, "CMP6")
 	found := false
+	// the writer's side only: what Normalize can reach (the reader's rename-back walk also
+	// looks at Anonymous, but stores names for encoding/json, not document fields)
+	writer := c.staticReach(c.lookupFunc("internal", "Normalize"))
 	for _, fn := range c.LibFuncs {
-		if c.pkgRel(fn) != "internal" {
+		if c.pkgRel(fn) != "internal" || !writer[rootFunc(fn)] {
 			continue
 		}
 		// the struct normaliser: loads reflect.StructField.Anonymous
@@ -1787,4 +1833,229 @@ func ruleDOC1(c *Ctx) []Ob {
 		}
 	}
 	return softenUndecided(o.list)
+}
+
+// ---------------------------------------------------------------- COD3
+
+// kindsComparedIn: the reflect.Kind constants a set of functions compare a kind with.
+func (c *Ctx) kindsComparedIn(fns map[*ssa.Function]bool) map[int64]bool {
+	out := map[int64]bool{}
+	for fn := range fns {
+		for _, b := range fn.Blocks {
+			for _, in := range b.Instrs {
+				bo, ok := in.(*ssa.BinOp)
+				if !ok || (bo.Op != token.EQL && bo.Op != token.NEQ) {
+					continue
+				}
+				for _, pair := range [][2]ssa.Value{{bo.X, bo.Y}, {bo.Y, bo.X}} {
+					if n, ok := pair[0].Type().(*types.Named); ok && n.Obj().Pkg() != nil && n.Obj().Pkg().Path() == "reflect" && n.Obj().Name() == "Kind" {
+						if k, ok := constInt(pair[1]); ok {
+							out[k] = true
+						}
+					}
+				}
+			}
+		}
+	}
+	return out
+}
+
+// COD3: struct -> document -> struct. The writer (Normalize) renames struct
+// fields to their clover names at every depth: inside pointers, slices, arrays
+// and maps it recurses into. The reader (Convert, behind Document.Unmarshal)
+// must rename them back at every depth the writer reaches: the container kinds
+// the writer recurses through are also kinds the reader's walk distinguishes.
+// A reader that only descends into struct-typed fields leaves the elements of a
+// []S or map[string]S (and a *S in a fresh target) under their clover names,
+// and json.Unmarshal silently drops them.
+func ruleCOD3(c *Ctx) []Ob {
+	o := newObs(c, "COD3")
+	norm := c.lookupFunc("internal", "Normalize")
+	conv := c.lookupFunc("internal", "Convert")
+	if norm == nil || conv == nil {
+		o.add(UNDECIDED, "model", "-", "internal.Normalize or internal.Convert not found")
+		return softenUndecided(o.list)
+	}
+	inInternal := func(from *ssa.Function) map[*ssa.Function]bool {
+		out := map[*ssa.Function]bool{}
+		for f := range c.staticReach(from) {
+			if c.pkgRel(f) == "internal" {
+				out[f] = true
+			}
+		}
+		return out
+	}
+	wk := c.kindsComparedIn(inInternal(norm))
+	rfns := inInternal(conv)
+	delete(rfns, norm)
+	for f := range inInternal(norm) {
+		if f != conv {
+			// helpers shared with the writer do not count as the reader's own walk
+			if !c.staticReach(conv)[f] {
+				continue
+			}
+		}
+	}
+	rk := c.kindsComparedIn(rfns)
+	for _, kn := range []string{"Struct", "Slice", "Map"} {
+		kv, ok := c.reflectKind(kn)
+		key := "Convert/renames back inside " + kn
+		if !ok {
+			o.add(UNDECIDED, key, "-", "reflect.%s not found", kn)
+			continue
+		}
+		switch {
+		case !wk[kv]:
+			o.add(OK, key, relPath(c, norm.Pos()), "the writer does not recurse through kind %s", kn)
+		case rk[kv]:
+			o.add(OK, key, relPath(c, conv.Pos()), "the reader's walk distinguishes kind %s, as the writer's does", kn)
+		default:
+			o.add(VIOLATED, key, relPath(c, conv.Pos()), "Normalize recurses into values of kind %s and renames the struct fields it finds there to their clover names, but no function behind Convert looks at kind %s: those fields are not renamed back, and json.Unmarshal leaves them zero - a struct holding a %s of tagged structs does not survive NewDocumentOf + Unmarshal", kn, kn, strings.ToLower(kn))
+		}
+	}
+	return o.list
+}
+
+// ---------------------------------------------------------------- CMP10
+
+// structFieldRead reports whether instruction in reads field `name` of a reflect.StructField.
+func structFieldRead(in ssa.Instruction, name string) bool {
+	var st types.Type
+	idx := -1
+	switch x := in.(type) {
+	case *ssa.FieldAddr:
+		if p, ok := x.X.Type().Underlying().(*types.Pointer); ok {
+			st, idx = p.Elem(), x.Field
+		}
+	case *ssa.Field:
+		st, idx = x.X.Type(), x.Field
+	}
+	if st == nil || !namedIs(st, "reflect", "StructField") {
+		return false
+	}
+	s, ok := st.Underlying().(*types.Struct)
+	return ok && idx < s.NumFields() && s.Field(idx).Name() == name
+}
+
+// CMP10: a walker over the fields of a struct that skips unexported fields
+// (StructField.PkgPath != "") looks at StructField.Anonymous before it skips:
+// the exported fields of an embedded struct of an unexported type are promoted
+// (encoding/json, through which documents are unmarshalled, includes them), so
+// "embedded flattening" has to reach them. The writer (normalizeStruct) and the
+// reader (rename-back walk) are held to the same rule.
+func ruleCMP10(c *Ctx) []Ob {
+	o := newObs(c, "CMP10")
+	readsAnonymous := func(g *ssa.Function) bool {
+		found := false
+		for _, b := range g.Blocks {
+			for _, in := range b.Instrs {
+				if structFieldRead(in, "Anonymous") {
+					found = true
+				}
+			}
+		}
+		return found
+	}
+	n := 0
+	for _, fn := range c.LibFuncs {
+		rel := c.pkgRel(fn)
+		if rel != "internal" && rel != "document" && rel != "util" {
+			continue
+		}
+		// edges on which the field is known to be exported
+		var pkgPathReads []ssa.Instruction
+		for _, b := range fn.Blocks {
+			for _, in := range b.Instrs {
+				if structFieldRead(in, "PkgPath") {
+					pkgPathReads = append(pkgPathReads, in)
+				}
+			}
+		}
+		if len(pkgPathReads) == 0 {
+			continue
+		}
+		isPkgPath := func(v ssa.Value) bool {
+			for _, og := range origins(v) {
+				if u, ok := og.(*ssa.UnOp); ok && u.Op == token.MUL {
+					og = u.X
+				}
+				if in, ok := og.(ssa.Instruction); ok && structFieldRead(in, "PkgPath") {
+					return true
+				}
+			}
+			return false
+		}
+		exported := guardEdges(fn, func(cond ssa.Value, branch bool) bool {
+			b, ok := cond.(*ssa.BinOp)
+			if !ok || !(isPkgPath(b.X) || isPkgPath(b.Y)) {
+				return false
+			}
+			return (b.Op == token.EQL && branch) || (b.Op == token.NEQ && !branch)
+		})
+		if len(exported) == 0 {
+			continue
+		}
+		n++
+		key := c.fname(fn) + "/embedded fields are looked at before unexported fields are skipped"
+		ok := false
+		for _, b := range fn.Blocks {
+			for _, in := range b.Instrs {
+				hit := structFieldRead(in, "Anonymous")
+				if call, isCall := in.(ssa.CallInstruction); isCall && !hit {
+					if g := staticCallee(call); g != nil && c.IsLib(c.declared(g)) && readsAnonymous(c.declared(g)) {
+						hit = true
+					}
+				}
+				if hit && !guardedBy(fn, b, exported) {
+					ok = true
+				}
+			}
+		}
+		if ok {
+			o.add(OK, key, relPath(c, pkgPathReads[0].Pos()), "StructField.Anonymous is read outside the branch taken for exported fields")
+		} else {
+			o.add(VIOLATED, key, relPath(c, pkgPathReads[0].Pos()), "every field whose PkgPath is not empty is skipped, embedded structs included: the exported fields of an embedded struct of an unexported type (type base struct{ID string}; type User struct{base; Name string}) are dropped by NewDocumentOf although they are promoted fields that encoding/json reads and writes")
+		}
+	}
+	if n == 0 {
+		o.add(UNDECIDED, "struct walkers", "-", "no function testing reflect.StructField.PkgPath was found")
+	}
+	return o.list
+}
+
+// ---------------------------------------------------------------- COD4
+
+// COD4: the way back from a document to a Go value (Convert, behind
+// Document.Unmarshal) does not re-encode the document's values through a codec
+// that rejects values of the canonical domain. encoding/json.Marshal fails on
+// +Inf, -Inf and NaN ("json: unsupported value"), which are float64 values a
+// document can hold: a struct with such a field converts to a document and
+// cannot be unmarshalled back.
+func ruleCOD4(c *Ctx) []Ob {
+	o := newObs(c, "COD4")
+	conv := c.lookupFunc("internal", "Convert")
+	if conv == nil {
+		o.add(UNDECIDED, "model", "-", "internal.Convert not found")
+		return o.list
+	}
+	n := 0
+	fns := c.staticReach(conv)
+	var list []*ssa.Function
+	for f := range fns {
+		list = append(list, f)
+	}
+	sort.Slice(list, func(i, j int) bool { return c.fname(list[i]) < c.fname(list[j]) })
+	for _, f := range list {
+		allCalls(f, func(ci ssa.CallInstruction) {
+			switch calleeFullName(ci) {
+			case "encoding/json.Marshal", "encoding/json.MarshalIndent", "(*encoding/json.Encoder).Encode":
+				n++
+				o.add(VIOLATED, c.fname(f)+"/document values re-encoded through encoding/json", relPath(c, ci.Pos()), "Convert marshals the document with encoding/json before unmarshalling it into the target: json.Marshal fails on +Inf, -Inf and NaN, so type S struct{F float64} with F = +Inf converts to the document {F: +Inf} but Unmarshal fails with \"json: unsupported value: +Inf\"")
+			}
+		})
+	}
+	if n == 0 {
+		o.add(OK, "Convert", relPath(c, conv.Pos()), "the reader does not pass document values through encoding/json.Marshal")
+	}
+	return o.list
 }
